@@ -605,3 +605,54 @@ for _w in ("push", "unshift"):
              native=_native_array_method(_w), heap_inputs=True, bind={"WHICH": _w}, prim_args=False)
 register(c_arr_concat, id="C17.array.concat", prop="C17", target=closure("microjs.vm", "VM._make_array_method", "concat_fn"), env=("vm", "arr"),
          native=_native_array_method("concat"), heap_inputs=True, prim_args=False)
+
+
+# ---- bounded: which property keys ARE element indices (ECMA-262 6.1.7 array index / 7.1.21 CanonicalNumericIndexString) ----
+def _canonical_index(key_text):
+    """the index a string key denotes, or None: only the canonical decimal spelling of an integer in [0, 2^32-2]"""
+    if key_text.isascii() and key_text.isdigit() and (key_text == "0" or key_text[0] != "0") and int(key_text) < 2 ** 32 - 1:
+        return int(key_text)
+    return None
+
+
+@groups.group(id="C17.bounded.index-keys", prop="C17", kind="B", functions=["microjs.vm:VM._get_property", "microjs.vm:VM._set_property", "microjs.values:_is_array_index"])
+def c17_index_keys(tier="quick", seed=0):
+    """element access by key: only canonical numeric strings (and numbers whose ToString is one) address elements;
+    every other spelling ("01", " 1", "+1", "-0", "1.0", "1e0", non-ASCII digits, ...) is an ordinary property name"""
+    import json as _j
+    from microjs import Context
+    import specs.es_core as CORE_
+    from microjs.values import UNDEFINED, NULL
+    str_keys = ["0", "1", "2", "3", "01", "00", " 1", "1 ", "\t1", "+1", "-0", "-1", "1.0", "1.", "1e0", "1_0", "0x1", "0b1", "\u0661", "\u00b2", "\uff11", "4294967294", "4294967295", "4294967296",
+                "", "length", "1,2", "Infinity", "NaN", "1n"]
+    other_keys = [("0", 0), ("1", 1), ("1.0", 1.0), ("1.5", 1.5), ("-0", -0.0), ("-1", -1), ("1e21", 1e21), ("NaN", float("nan")), ("true", True), ("null", NULL), ("undefined", UNDEFINED), ("2", 2), ("3", 3)]
+    keys = [(_j.dumps(k), k) for k in str_keys] + [(js, CORE_.ToString(v)) for js, v in other_keys]
+    recvs = {"array": ("[10, 20, 30]", [10, 20, 30]), "typed": ("new Uint8Array([10, 20, 30])", [10, 20, 30]), "string": ("'xyz'", ["x", "y", "z"]), "empty-array": ("[]", [])}
+    out = []
+    for rname, (rjs, elems) in recvs.items():
+        bad = None
+        n = 0
+        for kjs, ktext in keys:
+            idx = _canonical_index(ktext)
+            is_elem = idx is not None and idx < len(elems)
+            want_read = elems[idx] if is_elem else ("<length>" if ktext == "length" else "U")
+            probes = [("read", f"var a = {rjs}; var v = a[{kjs}]; v === undefined ? 'U' : v", want_read if want_read != "<length>" else len(elems))]
+            if rname in ("array", "empty-array"):
+                probes.append(("in", f"var a = {rjs}; {kjs} in a", is_elem or ktext == "length"))
+                probes.append(("hasOwnProperty", f"var a = {rjs}; a.hasOwnProperty({kjs})", is_elem or ktext == "length"))
+                if idx is None and ktext not in ("length",):
+                    # writing a non-index key never touches the elements
+                    probes.append(("write-non-index", f"var a = {rjs}; try {{ a[{kjs}] = 99; }} catch (e) {{ }} a.join() + '|' + a.length", ",".join(str(e) for e in elems) + "|" + str(len(elems))))
+            if rname == "typed" and idx is None and ktext != "length":
+                probes.append(("write-non-index", f"var a = {rjs}; try {{ a[{kjs}] = 99; }} catch (e) {{ }} a.join() + '|' + a.length", ",".join(str(e) for e in elems) + "|" + str(len(elems))))
+            for pname, src, want in probes:
+                n += 1
+                try:
+                    got = Context(time_limit=10).eval(src)
+                except Exception as e:  # noqa
+                    got = "ERR " + type(e).__name__ + ": " + str(e)[:60]
+                if got != want and bad is None:
+                    bad = (pname, src, got, want)
+        out.append(ob(f"C17.bounded.index-keys.{rname}", bad is None, "B", f"{n} (key spelling, operation) cases" if bad is None else f"[{bad[0]}] {bad[1]} -> {bad[2]!r}, ECMAScript {bad[3]!r}",
+                      witness=(bad[1] if bad else None), confirmed=True if bad else None, domain=n))
+    return out
